@@ -67,6 +67,8 @@ type Sched struct {
 	OnStep func()
 	// Quiet suppresses per-step trace lines (the schedule signature is still hashed).
 	Quiet bool
+	// PanicProperty, when set, is the property a task panic is attributed to (default: the run's property).
+	PanicProperty string
 }
 
 var active atomic.Pointer[Sched]
@@ -232,7 +234,11 @@ func (s *Sched) Run() {
 		s.running = nil
 		if next.done && next.panicV != nil {
 			site := panicSite(next.stack)
-			s.run.Fail("task-panic", site+": "+simcore.NormalisePanic(next.panicV), "task %s panicked: %v\n%s", next.name, next.panicV, trimStack(next.stack))
+			if s.PanicProperty != "" {
+				s.run.FailProp(s.PanicProperty, "task-panic", site+": "+simcore.NormalisePanic(next.panicV), "task %s panicked: %v\n%s", next.name, next.panicV, trimStack(next.stack))
+			} else {
+				s.run.Fail("task-panic", site+": "+simcore.NormalisePanic(next.panicV), "task %s panicked: %v\n%s", next.name, next.panicV, trimStack(next.stack))
+			}
 			s.abandon()
 			return
 		}
